@@ -8,6 +8,9 @@ total=len(r); caught=sum(1 for x in r if x.get('caught_now'))
 first=sum(1 for x in r if init.get(x['seed'],'').startswith('caught'))
 obsolete=[x['seed'] for x in r if 'no longer applies' in x.get('status','') or x.get('status','').startswith('obsolete')]
 missed=[x['seed'] for x in r if not x.get('caught_now') and x['seed'] not in obsolete]
+r4=[x['seed'] for x in r if re.search(r'-1[0-2]$', x['seed'])]
+r4first=sum(1 for k in r4 if init.get(k,'').startswith('caught'))
+r4missed=len(r4)-r4first
 rows=[]
 for x in r:
     rb='; '.join(sorted(set(y.split(' ')[1] for y in x.get('reported_by',[]) if y.startswith('report['))))
@@ -32,6 +35,13 @@ both rules were generalised) and 37 were missed; all 39 led to a new or
 widened rule (the agents of that round may have seen a one-line
 project memory note naming /verif; their prompts told them to ignore it and
 nothing from /verif was readable in their worktrees' task).
+A fourth round (seeds 10–12, same brief as the third, against the checks as
+strengthened by it) gave 60 more: {r4first} were reported on first contact and
+{r4missed} were missed; every miss led to a new or widened rule, one of them to
+a repair of the checker itself (C13-12: a new method nobody calls statically had
+been removed from view by the helper inliner). Reading the code for that
+round, the agents also pointed at three defects of pint itself, all
+reproduced and repaired (F41, F42, F43 in section 6).
 I kept a change only after confirming in a scratch worktree
 (`tools/confirm_seed.sh`, network-less namespace): it builds, the unedited
 suite passes with it, the demo fails with it and passes without. Each is stored
